@@ -99,6 +99,9 @@ pub enum Pending {
 #[derive(Clone, Debug, PartialEq)]
 pub enum St {
     Created,
+    /// closed with closeStream: not publishing or playing any more; whether it can be used
+    /// again without a new createStream the statement does not say
+    Closed,
     Publishing(String),
     Playing(String),
     Finished,
@@ -150,6 +153,7 @@ impl ServerModel {
         for s in self.streams.values() {
             h = fnv_u64(h, match s {
                 St::Created => 1,
+                St::Closed => 6,
                 St::Publishing(_) => 2,
                 St::Playing(_) => 3,
                 St::Finished => 4,
@@ -186,20 +190,27 @@ impl ServerModel {
                     }
                 }
                 Some(want_app) => {
-                    let mut expected = want_app.clone();
-                    if expected.ends_with('/') {
-                        expected.pop();
+                    // how the name is normalised (the library drops one trailing '/') is not the
+                    // statement's business: the surfaced name must be the requested one up to
+                    // surrounding slashes and white space, and it is the surfaced name that
+                    // every later event has to carry
+                    fn norm(s: &str) -> &str {
+                        s.trim_matches(|c: char| c == '/' || c.is_whitespace())
                     }
                     if let Some(SOut::ConnReq { id, app }) = outs.first() {
-                        if self.fresh_request(*id) && *app == expected {
+                        if self.fresh_request(*id) && norm(app) == norm(want_app) {
                             let mut m = self.clone();
                             m.issued_ids.insert(*id);
                             m.pending.insert(*id, Pending::Connect { app: app.clone(), tx: *tx });
                             alts.push((1, m));
                         }
                     }
-                    if self.app.is_some() {
-                        // already connected: nothing is also fine
+                    if self.app.is_some() || self.pending.values().any(|p| matches!(p, Pending::Connect { .. })) {
+                        // already connected, or a connection request is waiting for its answer:
+                        // the statement does not say that a further connect is surfaced
+                        if let Some(SOut::Error { .. }) = outs.first() {
+                            alts.push((1, self.clone()));
+                        }
                         alts.extend(self.none());
                     }
                 }
@@ -225,11 +236,20 @@ impl ServerModel {
             SIn::Publish { msid, key, mode } => {
                 let well_formed = key.is_some() && mode.is_some();
                 if !well_formed {
-                    // F request event; P _error
+                    // P: _error, nothing, or -- once connected -- a request made from what is
+                    // there (a missing mode defaulting to live, say); F: a request before connect
                     if let Some(SOut::Error { .. }) = outs.first() {
                         alts.push((1, self.clone()));
                     }
                     alts.extend(self.none());
+                    if let (Some(app), Some(SOut::PubReq { id, app: a, key: k, mode: md })) = (self.app.as_ref(), outs.first()) {
+                        if self.fresh_request(*id) && a == app && key.as_ref().map(|x| x == k).unwrap_or(true) && mode.as_ref().map(|x| x == md).unwrap_or(true) {
+                            let mut m = self.clone();
+                            m.issued_ids.insert(*id);
+                            m.pending.insert(*id, Pending::Publish { sid: *msid, key: k.clone() });
+                            alts.push((1, m));
+                        }
+                    }
                 } else if self.app.is_none() {
                     // F request event; R an _error response
                     if let Some(SOut::Error { .. }) = outs.first() {
@@ -294,7 +314,7 @@ impl ServerModel {
                             if delete {
                                 m.streams.remove(&s);
                             } else {
-                                m.streams.insert(s, St::Created);
+                                m.streams.insert(s, St::Closed);
                             }
                             alts.push((1, m));
                         }
@@ -305,7 +325,7 @@ impl ServerModel {
                             if delete {
                                 m.streams.remove(&s);
                             } else {
-                                m.streams.insert(s, St::Created);
+                                m.streams.insert(s, St::Closed);
                             }
                             alts.push((1, m));
                         }
@@ -317,14 +337,14 @@ impl ServerModel {
                         if delete {
                             m.streams.remove(&s);
                         } else if !was_unknown {
-                            m.streams.insert(s, St::Created);
+                            m.streams.insert(s, St::Closed);
                         }
                         if matches!(outs.first(), Some(SOut::PubFin { .. }) | Some(SOut::PlayFin { .. })) {
                             alts.push((1, m.clone()));
                         }
                         alts.push((0, m));
                     }
-                    Some((s, St::Created)) => {
+                    Some((s, St::Created)) | Some((s, St::Closed)) => {
                         // F any finished event
                         let mut m = self.clone();
                         if delete {
@@ -427,6 +447,11 @@ impl ServerModel {
                     if ok {
                         m.streams.insert(*sid, St::Unknown);
                     }
+                    return Ok(m);
+                }
+                if !ok && self.streams.get(sid) == Some(&St::Closed) {
+                    // closed after the request was surfaced: whether the stream can still be
+                    // used the statement does not say
                     return Ok(m);
                 }
                 if !ok {
